@@ -29,6 +29,8 @@ FAMILIES['C04'] = [
     fam('hold-intr-timer', ['TADD HOLD HOLD', 'HOLD INTR0'], PRIOSYM=1, witness=True),
     fam('two-timers-cancel', ['TADD TADD HOLD TCANCEL HOLD', 'HOLD INTR0'], w=6),
     fam('timers-clear', ['TADD TADD TCLEAR HOLD TADD HOLD']),
+    fam('timer-set-replaces', ['TADD TADD TSET HOLD HOLD', 'HOLD INTR0'], w=4),
+    fam('timer-set-after-yield', ['TADD TADD YIELD TSET HOLD HOLD', 'HOLD RESUME0'], w=4),
     fam('timers-clear-after-waitp', ['TADD TADD WAITP1 TCLEAR HOLD', 'HOLD HOLD'], w=4),
     fam('timers-cancel-after-acquire', ['TADD TADD ACQ TCANCEL HOLD REL', 'ACQ HOLD HOLD REL'], w=4),
     fam('timers-clear-after-yield', ['TADD TADD YIELD TCLEAR HOLD', 'HOLD RESUME0'], w=3),
@@ -141,6 +143,8 @@ FAMILIES['C09'] = [
     fam('stopped-in-waitp', ['HOLD HOLD', 'TADD WAITP0 HOLD', 'HOLD STOP1', 'WAITP1'], w=6),
     fam('stopped-in-waite', ['TADD WAITE HOLD', 'HOLD STOP0', 'WAITP0 HOLD'], w=4),
     fam('stop-self', ['ACQ PACQ TADD STOP0', 'WAITP0 ACQ REL', 'TADD PACQ'], w=3),
+    fam('restart-after-stop', ['ACQ PACQ TADD HOLD', 'HOLD STOP0 HOLD RESTART0 WAITP0', 'WAITP0 ACQ REL'], w=5),
+    fam('restart-after-return', ['TADD ACQ HOLD', 'WAITP0 RESTART0 WAITP0 HOLD'], w=3),
     fam('ends-with-interrupt-pending', ['HOLD', 'HOLD INTR0 HOLD'], PRIOSYM=1, w=3),
     fam('stopped-with-resume-pending', ['YIELD HOLD', 'HOLD RESUME0 STOP0 HOLD'], w=2),
     fam('exits-with-interrupt-pending', ['HOLD EXIT', 'HOLD INTR0', 'WAITP0'], PRIOSYM=1, w=4),
